@@ -3,6 +3,7 @@ package taskprops
 import (
 	"fmt"
 	"image"
+	"image/color"
 
 	"verif.local/sim/tape"
 	"verif.local/simrt"
@@ -18,14 +19,26 @@ import (
 // keyed too coarsely only show in a history of at least two calls).
 type earlier struct {
 	On   bool
+	Same bool // the earlier call is on the very image object of the main call, which is modified in place afterwards
 	Img  *Img
 	Par  int
 	Desc string
+	seed uint64
 }
 
-func drawEarlier(t *tape.Tape, kind int, main image.Rectangle) earlier {
+// drawEarlier: mainImg is the image object of the main call. In a third of the
+// history runs the earlier call is made on that very object, whose pixels (and
+// palette) are then changed in place before the main call: anything remembered
+// by the identity of an image, a pixel slice or a palette is stale by then.
+func drawEarlier(t *tape.Tape, kind int, main image.Rectangle, mainImg *Img) earlier {
 	if t.Intn(4) != 0 {
 		return earlier{}
+	}
+	if mainImg != nil && t.Intn(3) == 0 {
+		e := earlier{On: true, Same: true, Img: mainImg, seed: t.Draw(1 << 40)}
+		e.Par = parallelismOf(t, mainImg.Rect.Dy())
+		e.Desc = fmt.Sprintf(" [after an earlier call on the same image object (parallelism %d), whose pixels%s were changed in place in between]", e.Par, map[bool]string{true: " and palette", false: ""}[kind == kPaletted])
+		return e
 	}
 	var r image.Rectangle
 	if t.Bool() {
@@ -37,6 +50,32 @@ func drawEarlier(t *tape.Tape, kind int, main image.Rectangle) earlier {
 	e.Par = parallelismOf(t, e.Img.Rect.Dy())
 	e.Desc = fmt.Sprintf(" [after an earlier call on %s%v, parallelism %d]", kindNames[kind], e.Img.Rect, e.Par)
 	return e
+}
+
+// mutate changes the image of a Same history in place (after the earlier call,
+// before the reference of the main call is computed).
+func (e earlier) mutate() {
+	if !e.Same {
+		return
+	}
+	r := tape.NewRand(e.seed)
+	for _, pl := range planes(e.Img.Parent) {
+		for i := range pl {
+			if r.Intn(3) == 0 {
+				pl[i] ^= byte(1 + r.Intn(255))
+			}
+		}
+	}
+	if p, ok := e.Img.Parent.(*image.Paletted); ok {
+		for i := range p.Palette {
+			if r.Intn(2) == 0 {
+				p.Palette[i] = color.NRGBA{uint8(r.Intn(256)), uint8(r.Intn(256)), uint8(r.Intn(256)), uint8(r.Intn(256))}
+			}
+		}
+		for i := range p.Pix {
+			p.Pix[i] = uint8(int(p.Pix[i]) % len(p.Palette))
+		}
+	}
 }
 
 // run executes the earlier call under the serial simulator; panics are left to
